@@ -16,6 +16,7 @@ argv[1] = JSON scenario {dir, ns, nbatch, nproc, ns2add, append, reject, k_filte
    odtype   "int16" | "float32" output sample format
    hexp     bool                a trace header passed explicitly (h=...), different from the one the file's metadata gives
    kind     probe kind of vkit.metagen ("3B2" default, "3A", "NP2.1", "NP2.4")
+   rkw      dict                reader_kwargs handed to the call (e.g. {"sort": false}: channels in on-disk order)
    prev     null | {ns, nbatch, nproc, ns2add, seed}   append=True onto the output of an earlier call on ANOTHER recording
    nruns    number of calls when append is set without prev (default 2: the same recording appended to itself)
 stdout  = one JSON line (result) prefixed by 'RESULT '
@@ -250,6 +251,10 @@ def main():
             h = header_of(sc)
             if h is not None:
                 kw["h"] = h
+            if sc.get("rkw"):
+                # options for the Reader (the recording read in its on-disk channel order): they hold for the parent's reader and
+                # for every worker's
+                kw["reader_kwargs"] = dict(sc["rkw"])
             a_in = str(c["binf"]) if as_str else c["binf"]
             a_out = None if sc.get("outdef") else (str(out) if as_str else out)
             try:
@@ -314,7 +319,7 @@ def main():
                 # the scenario's own recording: the last block
                 ns = sc["ns"]
                 boff = off - (calls[-1]["ns"] + calls[-1]["ns2add"])
-                sr = spikeglx.Reader(binf)
+                sr = spikeglx.Reader(binf, **(sc.get("rkw") or {}))
                 labels = voltage.detect_bad_channels_cbin(sr) if sc["reject"] else None
                 exp = expected_batches(sc, data, labels, sr)
                 blk = o[boff:boff + ns]
